@@ -18,6 +18,7 @@ The bridge theorems in lean/Tdgl/Props/*Bridge.lean state `generated = hand-writ
 from __future__ import annotations
 
 import ast
+import re
 import hashlib
 import os
 import sys
@@ -172,6 +173,11 @@ def sha_of(path):
 
 
 def gen_step():
+    """Name-agnostic translation of `solve_for_psi_squared`: every assignment (whatever its local name) becomes a
+    Lean definition; the ROLES the bridge theorems need are found by structure, not by name:
+      * the returned pair is `(P, X)`; `P` is (assigned as) `W - Z * X` with complex W, Z and real X -> roles w, z, root;
+      * the refusal guard is `if xp.any(D < 0): return None` -> role discriminant.
+    Role definitions get canonical names (`gen_z`, `gen_w`), all others `gen_v<k>`; two macros list what to unfold."""
     src = os.path.join(REPO, "tdgl/solver/solver.py")
     tree = ast.parse(open(src).read())
     f = find_func(tree, "TDGLSolver", "solve_for_psi_squared")
@@ -181,73 +187,129 @@ def gen_step():
     args = " ".join(n for n, _ in inputs)
     types = dict(inputs)
     types["psi_laplacian"] = "M"
-    subst = {}
-    defs = []
-    guard = None
-    ret = None
-    wanted = {"U", "z", "w", "c", "two_c_1", "w2", "discriminant", "new_sq_psi", "psi"}
-    seen = []
+    current = {}      # python name -> index of the assignment that currently binds it
+    assigns = []      # dicts(name, value ast, py text)
+    guard_ast = None
+    guard_pos = None
+    ret_ast = None
     for s in stmts:
         if isinstance(s, ast.Assign) and len(s.targets) == 1 and isinstance(s.targets[0], ast.Name):
             name = s.targets[0].id
             if name == "xp":
-                continue
-            if name not in wanted:
-                raise Unsupported(f"unexpected assignment to {name}")
-            g = ExprGen(types, subst)
-            term, ty = g.tr(s.value)
-            lean_name = "gen_psi_new" if name == "psi" else f"gen_{name}"
-            defs.append((lean_name, ty, term, ast.unparse(s)))
-            types[name] = ty
-            subst[name] = f"({lean_name} {args})"
-            seen.append(name)
+                continue  # array-module selection (numpy / cupy), no arithmetic
+            assigns.append(dict(name=name, value=s.value, py=ast.unparse(s)))
         elif isinstance(s, ast.If):
             test = s.test
-            # `if isinstance(psi, np.ndarray): xp = np else: …`  — backend selection, no arithmetic
             if isinstance(test, ast.Call) and getattr(test.func, "id", None) == "isinstance":
+                continue  # `if isinstance(psi, np.ndarray): xp = np else: ...`
+            if isinstance(test, ast.UnaryOp) and isinstance(test.op, ast.Not) and isinstance(test.operand, ast.Call) and getattr(test.operand.func, "id", None) == "isinstance":
                 continue
             if not (len(s.body) == 1 and isinstance(s.body[0], ast.Return) and isinstance(s.body[0].value, ast.Constant) and s.body[0].value.value is None):
                 raise Unsupported("if-statement that is not a `return None` guard")
             if not (isinstance(test, ast.Call) and getattr(test.func, "attr", None) == "any" and len(test.args) == 1 and isinstance(test.args[0], ast.Compare)):
                 raise Unsupported("guard that is not xp.any(<comparison>)")
             cmp_ = test.args[0]
-            if not (len(cmp_.ops) == 1 and isinstance(cmp_.ops[0], ast.Lt)):
-                raise Unsupported("guard comparison other than <")
-            g = ExprGen(types, subst)
-            l, tl = g.tr(cmp_.left)
-            r, tr_ = g.tr(cmp_.comparators[0])
-            if (tl, tr_) != ("R", "R"):
-                raise Unsupported("complex comparison")
-            if guard is not None:
+            if not (len(cmp_.ops) == 1 and isinstance(cmp_.ops[0], ast.Lt) and isinstance(cmp_.comparators[0], ast.Constant) and cmp_.comparators[0].value == 0):
+                raise Unsupported("guard comparison other than `< 0`")
+            if guard_ast is not None:
                 raise Unsupported("more than one refusal guard")
-            guard = (l, r, ast.unparse(test), list(seen))
+            guard_ast, guard_pos = cmp_.left, len(assigns)
         elif isinstance(s, ast.Return):
             if not (isinstance(s.value, ast.Tuple) and len(s.value.elts) == 2):
                 raise Unsupported("return value is not a pair")
-            g = ExprGen(types, subst)
-            a, ta = g.tr(s.value.elts[0])
-            b, tb = g.tr(s.value.elts[1])
-            if (ta, tb) != ("C", "R"):
-                raise Unsupported("return types")
-            ret = (a, b)
+            ret_ast = s.value
         elif isinstance(s, (ast.Expr, ast.Assert)):
             continue  # docstring, logger call, assert
         else:
             raise Unsupported(f"statement {type(s).__name__}")
-    missing = wanted - set(seen)
-    if missing or guard is None or ret is None:
-        raise Unsupported(f"expected assignments missing: {sorted(missing)}; guard={guard is not None}; return={ret is not None}")
-    # the refusal guard must come after the discriminant and before the root
-    if "new_sq_psi" in guard[3] or "discriminant" not in guard[3]:
-        raise Unsupported("the refusal guard is not between the discriminant and the root")
+    if guard_ast is None or ret_ast is None:
+        raise Unsupported(f"guard={guard_ast is not None}; return={ret_ast is not None}")
+
+    # ---- roles by structure ---------------------------------------------------------------------------------------
+    def binding_before(name, pos):
+        """index of the last assignment to `name` among assigns[:pos], or None (an input)"""
+        for k in range(pos - 1, -1, -1):
+            if assigns[k]["name"] == name:
+                return k
+        return None
+
+    def resolve(node, pos):
+        """follow a bare name to the expression assigned to it (one level)"""
+        if isinstance(node, ast.Name):
+            k = binding_before(node.id, pos)
+            if k is not None:
+                return assigns[k]["value"], k
+        return node, None
+
+    p_ast, p_idx = resolve(ret_ast.elts[0], len(assigns))
+    if not (isinstance(p_ast, ast.BinOp) and isinstance(p_ast.op, ast.Sub) and isinstance(p_ast.left, ast.Name)
+            and isinstance(p_ast.right, ast.BinOp) and isinstance(p_ast.right.op, ast.Mult)
+            and isinstance(p_ast.right.left, ast.Name) and isinstance(p_ast.right.right, ast.Name)):
+        raise Unsupported("the returned psi is not of the form W - Z * X with three names")
+    pos_p = p_idx if p_idx is not None else len(assigns)
+    role_idx = {"w": binding_before(p_ast.left.id, pos_p)}
+    cand = [p_ast.right.left.id, p_ast.right.right.id]
+
+    # ---- definitions in order ---------------------------------------------------------------------------------------
+    subst = {}
+    defs = []
+    lean_of = {}
+    ty_of = {}
+    for k, a in enumerate(assigns):
+        g = ExprGen(types, subst)
+        term, ty = g.tr(a["value"])
+        ty_of[k] = ty
+        types[a["name"]] = ty
+        lean_of[k] = None
+        defs.append([k, ty, term, a["py"]])
+        subst[a["name"]] = f"(@@{k}@@ {args})"
+    zs = [n for n in cand if binding_before(n, pos_p) is not None and ty_of[binding_before(n, pos_p)] == "C"]
+    xs = [n for n in cand if binding_before(n, pos_p) is not None and ty_of[binding_before(n, pos_p)] == "R"]
+    if len(zs) != 1 or len(xs) != 1 or role_idx["w"] is None or ty_of[role_idx["w"]] != "C":
+        raise Unsupported("cannot identify the roles of w, z and the root in the returned expression")
+    role_idx["z"] = binding_before(zs[0], pos_p)
+    names = {}
+    for k, _, _, _ in defs:
+        names[k] = "gen_z" if k == role_idx["z"] else ("gen_w" if k == role_idx["w"] else f"gen_v{k}")
+
+    def fin(term):
+        return re.sub(r"@@(\d+)@@", lambda m: names[int(m.group(1))], term)
+
+    # guard and return, translated at their positions
+    def tr_at(node, pos):
+        sub = {}
+        ty = dict(inputs)
+        ty["psi_laplacian"] = "M"
+        for k in range(pos):
+            sub[assigns[k]["name"]] = f"({names[k]} {args})"
+            ty[assigns[k]["name"]] = ty_of[k]
+        return ExprGen(ty, sub).tr(node)
+
+    gl, gt = tr_at(guard_ast, guard_pos)
+    if gt != "R":
+        raise Unsupported("complex comparison")
+    ra, ta = tr_at(ret_ast.elts[0], len(assigns))
+    rb, tb = tr_at(ret_ast.elts[1], len(assigns))
+    if (ta, tb) != ("C", "R"):
+        raise Unsupported("return types")
+    # the refusal must be decided before the root is divided out: the root's definition may not precede the guard
+    x_idx = binding_before(xs[0], pos_p)
+    if x_idx is not None and x_idx < guard_pos:
+        raise Unsupported("the root is computed before the refusal guard")
     out = [HEADER.format(src="tdgl/solver/solver.py :: TDGLSolver.solve_for_psi_squared", sha=sha_of(src)),
            "import Tdgl.Scalar\nimport Tdgl.Step\n\nnamespace Tdgl.Gen\nvariable {K : Type} [Add K] [Sub K] [Mul K] [Div K] [Neg K]\n"
            "  [OfNat K 0] [OfNat K 1] [OfNat K 2] [OfNat K 4] [LT K] [DecidableLT K] [HasSqrt K] [HasTrig K]\n"]
-    for lean_name, ty, term, py in defs:
-        out.append(f"/-- `{py}` -/\ndef {lean_name} {params} : {'Cx K' if ty == 'C' else 'K'} :=\n  {term}\n")
-    out.append(f"/-- `if {guard[2]}: return None` … `return psi, new_sq_psi` -/\ndef stepSiteGen {params} : Option (Cx K × K) :=\n"
-               f"  if {guard[0]} < {guard[1]} then none else some ({ret[0]}, {ret[1]})\n")
+    for k, ty, term, py in defs:
+        out.append(f"/-- `{py}` -/\ndef {names[k]} {params} : {'Cx K' if ty == 'C' else 'K'} :=\n  {fin(term)}\n")
+    out.append(f"/-- `if xp.any({ast.unparse(guard_ast)} < 0): return None` … `return {ast.unparse(ret_ast)}` -/\ndef stepSiteGen {params} : Option (Cx K × K) :=\n"
+               f"  if {gl} < (0 : K) then none else some ({ra}, {rb})\n")
     out.append("end Tdgl.Gen\n")
+    allnames = [names[k] for k, *_ in defs]
+    rest = [n for n in allnames if n not in ("gen_z", "gen_w")]
+    out.append("/-- unfold every generated definition (the local names of the source do not matter to the bridge proofs) -/\n"
+               "macro \"gen_unfold_all\" : tactic => `(tactic| simp only [" + ", ".join(f"Tdgl.Gen.{n}" for n in ["stepSiteGen"] + allnames) + "])\n")
+    out.append("/-- … all except the two whose roles (z and w of the documented equation) were identified by structure -/\n"
+               "macro \"gen_unfold_rest\" : tactic => `(tactic| simp only [" + ", ".join(f"Tdgl.Gen.{n}" for n in ["stepSiteGen"] + rest) + "])\n")
     return "\n".join(out)
 
 
@@ -289,9 +351,21 @@ def gen_validate():
             return " && ".join(parts) if len(parts) > 1 else parts[0]
         raise Unsupported(f"validate: condition {ast.unparse(n)}")
 
+    # local aliases of option fields (`terminal_psi = self.terminal_psi`) are inlined before the tests are read
+    aliases = {}
+
+    class Inline(ast.NodeTransformer):
+        def visit_Name(self, node):
+            return ast.copy_location(aliases[node.id], node) if node.id in aliases else node
+
     chain = []
     for s in f.body:
+        if isinstance(s, ast.Assign) and len(s.targets) == 1 and isinstance(s.targets[0], ast.Name) and isinstance(s.value, ast.Attribute) \
+                and isinstance(s.value.value, ast.Name) and s.value.value.id == "self":
+            aliases[s.targets[0].id] = s.value
+            continue
         if isinstance(s, ast.If):
+            s = ast.fix_missing_locations(Inline().visit(s))
             src_txt = ast.unparse(s.test)
             norm = src_txt.replace("(", "").replace(")", "").replace(" ", "")
             raises = any(isinstance(x, ast.Raise) for x in ast.walk(s))
@@ -313,12 +387,14 @@ def gen_validate():
                 chain.append(("tolerance", cond(t), src_txt))
             elif src_txt == "self.gpu":
                 chain.append(("gpuNoCupy", "o.gpu && !o.haveCupy", src_txt))
-            elif src_txt == "isinstance(solver, str)":
+            elif src_txt in ("isinstance(solver, str)", "isinstance(self.sparse_solver, str)"):
                 chain.append(("unknownSolver", "decide (o.solver = SolverKind.unknown)", src_txt))
             elif src_txt == "self.sparse_solver is SparseSolver.UMFPACK":
                 chain.append(("noUmfpack", "decide (o.solver = SolverKind.umfpack) && !o.haveUmfpack", src_txt))
             elif src_txt == "self.sparse_solver is SparseSolver.PARDISO":
                 chain.append(("noPardiso", "decide (o.solver = SolverKind.pardiso) && !o.havePardiso", src_txt))
+            elif src_txt == "self.sparse_solver is SparseSolver.CUPY and (not self.gpu)" or norm == "self.sparse_solverisSparseSolver.CUPYandnotself.gpu":
+                chain.append(("cupyNeedsGpu", "decide (o.solver = SolverKind.cupy) && !o.gpu", src_txt))
             elif src_txt == "self.sparse_solver is SparseSolver.CUPY":
                 inner = [x for x in s.body if isinstance(x, ast.If)]
                 if not (len(inner) == 1 and ast.unparse(inner[0].test) == "not self.gpu"):
@@ -342,6 +418,62 @@ def gen_validate():
 # ------------------------------------------------------------------------------------------------------------
 #  the adaptive rule and the retry update (constants are extracted, the structure is fixed)
 # ------------------------------------------------------------------------------------------------------------
+
+# ------------------------------------------------------------------------------------------------------------
+#  normal form for source pins: single-assignment locals are inlined, so that naming a sub-expression, hoisting an
+#  attribute into a local or renaming a temporary does not change the pinned text
+# ------------------------------------------------------------------------------------------------------------
+def inlined_values(func, depth=8):
+    """[(target text, value text with every single-assignment local of `func` replaced by its own value)]"""
+    counts, value = {}, {}
+    params = {a.arg for a in func.args.args + func.args.kwonlyargs}
+    loopvars = set()
+    for n in ast.walk(func):
+        if isinstance(n, (ast.For, ast.comprehension)):
+            for t in ast.walk(n.target):
+                if isinstance(t, ast.Name):
+                    loopvars.add(t.id)
+        if isinstance(n, ast.Assign):
+            for t in n.targets:
+                for x in ast.walk(t):
+                    if isinstance(x, ast.Name) and isinstance(x.ctx, ast.Store):
+                        counts[x.id] = counts.get(x.id, 0) + 1
+            if len(n.targets) == 1 and isinstance(n.targets[0], ast.Name):
+                value[n.targets[0].id] = n.value
+        if isinstance(n, (ast.AugAssign, ast.AnnAssign)) and isinstance(n.target, ast.Name):
+            counts[n.target.id] = counts.get(n.target.id, 0) + 2
+    single = {k for k, c in counts.items() if c == 1 and k in value and k not in params and k not in loopvars}
+
+    def inline(node, d):
+        class T(ast.NodeTransformer):
+            def visit_Name(self, x):
+                if isinstance(x.ctx, ast.Load) and x.id in single and d > 0:
+                    import copy
+                    return inline(copy.deepcopy(value[x.id]), d - 1)
+                return x
+        return T().visit(node)
+
+    out = []
+    for n in ast.walk(func):
+        if isinstance(n, ast.Assign):
+            import copy
+            out.append((ast.unparse(n.targets[0]), ast.unparse(inline(copy.deepcopy(n.value), depth))))
+    return out
+
+
+def maximal(texts):
+    """drop every text that occurs inside another one (a named temporary and the expression it was inlined into)"""
+    texts = sorted(set(texts))
+    return [t for t in texts if not any(t != u and t in u for u in texts)]
+
+
+def class_funcs(tree, cls):
+    for n in ast.walk(tree):
+        if isinstance(n, ast.ClassDef) and n.name == cls:
+            return [x for x in n.body if isinstance(x, ast.FunctionDef)]
+    raise Unsupported(f"class {cls} not found")
+
+
 def gen_adapt():
     src = os.path.join(REPO, "tdgl/solver/solver.py")
     tree = ast.parse(open(src).read())
@@ -349,24 +481,27 @@ def gen_adapt():
     step = find_func(tree, "TDGLSolver", "adaptive_euler_step")
     new_dt = tent = None
     window_test = None
-    for n in ast.walk(upd):
-        if isinstance(n, ast.Assign) and len(n.targets) == 1:
-            t = ast.unparse(n.targets[0])
-            if t == "new_dt":
-                new_dt = ast.unparse(n.value)
-            if t == "self.tentative_dt":
-                tent = ast.unparse(n.value)
-        if isinstance(n, ast.If) and ast.unparse(n.test) in ("step > window",):
-            window_test = ast.unparse(n.test)
+    # the rule may live in `update` or in a helper it calls: look at every method of the solver class; the text is
+    # taken with single-assignment locals inlined
+    for fn in class_funcs(tree, "TDGLSolver"):
+        for tgt, val in inlined_values(fn):
+            if tgt == "self.tentative_dt" and "np.clip(" in val:
+                tent = val
+        for n in ast.walk(fn):
+            if isinstance(n, ast.If) and ast.unparse(n.test) in ("step > window", "step > options.adaptive_window", "step > self.options.adaptive_window"):
+                window_test = "step > window"
+    new_dt = "inlined into the clip expression"
     retry = None
     cond = None
     for n in ast.walk(step):
-        if isinstance(n, ast.Assign) and "kwargs['dt']" in [ast.unparse(t) for t in n.targets]:
-            retry = ast.unparse(n.value)
         if isinstance(n, ast.If) and "max_solve_retries" in ast.unparse(n.test):
             cond = ast.unparse(n.test)
-    want = dict(new_dt="options.dt_init / max(1e-10, np.mean(self.d_psi_sq_vals[-window:]))", tent="np.clip(0.5 * (new_dt + dt), 0, self.dt_max)",
-                window_test="step > window", retry="dt * options.adaptive_time_step_multiplier", cond="not options.adaptive or retries > options.max_solve_retries")
+    for tgt, val in inlined_values(step):
+        if tgt in ("kwargs['dt']", "dt") and "adaptive_time_step_multiplier" in val:
+            retry = val
+    want = dict(new_dt="inlined into the clip expression",
+                tent="np.clip(0.5 * (self.options.dt_init / max(1e-10, np.mean(self.d_psi_sq_vals[-self.options.adaptive_window:])) + dt), 0, self.dt_max)",
+                window_test="step > window", retry="dt * self.options.adaptive_time_step_multiplier", cond="not options.adaptive or retries > options.max_solve_retries")
     got = dict(new_dt=new_dt, tent=tent, window_test=window_test, retry=retry, cond=cond)
     # the structure is matched textually (after ast normalisation); the numeric constants are carried into Lean
     import re
@@ -411,13 +546,13 @@ def gen_pins():
         raise Unsupported("screening loop not found")
     heads = [ast.unparse(x.test) for x in loop[0].body if isinstance(x, ast.If)][:2]
     out["screen_loop_head"] = " ; ".join(heads)
-    # --- terminal current density (C01) ---
+    # --- terminal current density (C01): the expression assigned inside update_mu_boundary that divides by the terminal length ---
     f = find_func(st, "TDGLSolver", "update_mu_boundary")
-    dens = [ast.unparse(n) for n in ast.walk(f) if isinstance(n, ast.Assign) and ast.unparse(n.targets[0]) == "current_density"]
+    dens = maximal([v for _, v in inlined_values(f) if ".length" in v and "sum(" in v])
     out["terminal_density"] = " ; ".join(dens)
-    # --- solve_for_observables (C01): rhs and normal current ---
+    # --- solve_for_observables (C01): every expression that applies one of the operators (targets dropped, temporaries inlined) ---
     f = find_func(st, "TDGLSolver", "solve_for_observables")
-    obs = [ast.unparse(n) for n in ast.walk(f) if isinstance(n, ast.Assign) and ast.unparse(n.targets[0]) in ("rhs", "normal_current", "supercurrent")]
+    obs = maximal([v for _, v in inlined_values(f) if ("divergence @" in v or "mu_gradient @" in v or "get_supercurrent(" in v) and "asnumpy" not in v and "asarray" not in v])
     out["observables"] = " ; ".join(obs)
     # --- order of the steps of one loop iteration in Runner._run_stage (C05) ---
     f = find_func(rt, "Runner", "_run_stage")
